@@ -194,7 +194,9 @@ func perms(n int) [][]int {
 	return out
 }
 
-func enumerate(t *testing.T, n int, adjs []int) {
+func enumerate(t *testing.T, n int, adjs []int) { enumeratePlans(t, n, adjs, allPlans) }
+
+func enumeratePlans(t *testing.T, n int, adjs []int, allPlans []graph.WrapPlan) {
 	shard, shards := kit.Shard()
 	ps := perms(n)
 	np := 1
@@ -296,4 +298,21 @@ func TestKnownRetryAfterRefusedLazyCreation(t *testing.T) {
 	l1 := in.Comps[0].(*zoo.L1)
 	fails := err1 != nil && err2 == nil && l1.Nx != nil && any(l1.Nx) != got2
 	kit.Rec.KnownWitness("retry-after-refused-lazy-creation", fails, fmt.Sprintf("first lookup err=%v; second lookup err=%v returns %v; L1.Nx holds %T", err1 != nil, err2, got2, l1.Nx))
+}
+
+
+// TestExhaustive3All: EVERY digraph on 3 pure nodes (self loops included) x all creation orders x all plans
+// without before-initialization wrapping (early: no/wrap; after: no / new / the early wrapper) - 512 x 6 x 216 runs.
+func TestExhaustive3All(t *testing.T) {
+	var adjs []int
+	for a := 0; a < 512; a++ {
+		adjs = append(adjs, a)
+	}
+	var plans []graph.WrapPlan
+	for _, p := range allPlans {
+		if p.Before == 0 {
+			plans = append(plans, p)
+		}
+	}
+	enumeratePlans(t, 3, adjs, plans)
 }
